@@ -60,13 +60,21 @@ def run(ctx):
     s3 = [x for x in s3 if waiting_cancel(x)]
     rng.shuffle(s3)
     s3 = s3[:(250 if ctx.quick else 4000)]
-    ctx.log("ServerEnv: %d + %d sampled scripts, %d scripts that cancel a waiting caller" % (min(n, len(all_scripts)), min(n, len(s2)), len(s3)))
+    # more pipelined calls on one unreturned answer than its queue holds (AnswerQueueSize 2): the extra ones wait for the queue
+    # to drain and must still be delivered behind the queued ones
+    s4, r4 = scripts(ctx, sd, 1, 4, 7, False, "d", shutdown=False)
+    states += r4.distinct
+    s4 = [x for x in s4 if sum(1 for a in x if a["a"] == "pipe") >= 3]
+    rng.shuffle(s4)
+    s4 = s4[:(150 if ctx.quick else 2000)]
+    ctx.log("ServerEnv: %d + %d sampled scripts, %d scripts that cancel a waiting caller, %d scripts that overfill an answer queue" % (
+        min(n, len(all_scripts)), min(n, len(s2)), len(s3), len(s4)))
     drv = gobuild.build(ctx, "srvdrv")
     total = rejected = hangs = events = 0
     kinds = {}
     for maxc in (1, 2):
         sf = ctx.path("scripts-%d.ndjson" % maxc)
-        part = chosen[(maxc - 1)::2] + (s3 if maxc == 1 else [])
+        part = chosen[(maxc - 1)::2] + (s3 if maxc == 1 else s4)
         with open(sf, "w") as f:
             for s in part:
                 f.write(json.dumps(s) + "\n")
